@@ -559,11 +559,11 @@ theorem initSt_edges (rooted : Bool) (lens : List Rat) :
 theorem initSt_tips (rooted : Bool) (lens : List Rat) : (initSt rooted lens).tips = tipNamesUpTo 2 := by
   simp [initSt, tipNamesUpTo, List.range_succ]
 
-theorem insertionGen_ok (step : Nat → St → Res St) (P : Nat → St → Prop) (n : Nat) (rooted : Bool)
+theorem insertionGenDoc2_ok (step : Nat → St → Res St) (P : Nat → St → Prop) (n : Nat) (rooted : Bool)
     (lens : List Rat) (h3 : 3 ≤ n)
     (hP0 : P 2 (initSt rooted lens)) (hPI : ∀ i s, P i s → InvT rooted i s.t)
     (hstep : ∀ i s, 2 ≤ i → i < n → P i s → ∃ s', step i s = .ok s' ∧ P (i + 1) s') :
-    ∃ o, insertionGen step (n : Int) rooted lens = .ok o ∧ GoodOut rooted n o := by
+    ∃ o, insertionGenDoc2 step (n : Int) rooted lens = .ok o ∧ GoodOut rooted n o := by
   obtain ⟨s, hs, hp⟩ := iter_inv step P n hstep (n - 2) 2 (initSt rooted lens) (by omega) (by omega) hP0
   have hn : 2 + (n - 2) = n := by omega
   rw [hn] at hp
@@ -571,11 +571,21 @@ theorem insertionGen_ok (step : Nat → St → Res St) (P : Nat → St → Prop)
   have h1 : ¬ ((n : Int) < 2) := by omega
   have h2 : ¬ ((n : Int) < 3) := by omega
   have h4 : (n : Int).toNat - 2 = n - 2 := by simp
-  unfold insertionGen
+  unfold insertionGenDoc2
   simp only [h1, h2, if_false, decide_false, Bool.false_and, h4, hs]
   cases rooted
   · exact finish_unrooted n s.t h3 hI
   · exact finish_rooted n s.t hI
+
+theorem insertionGen_ok (step : Nat → St → Res St) (P : Nat → St → Prop) (n : Nat) (rooted : Bool)
+    (lens : List Rat) (h3 : 3 ≤ n)
+    (hP0 : P 2 (initSt rooted lens)) (hPI : ∀ i s, P i s → InvT rooted i s.t)
+    (hstep : ∀ i s, 2 ≤ i → i < n → P i s → ∃ s', step i s = .ok s' ∧ P (i + 1) s') :
+    ∃ o, insertionGen step (n : Int) rooted lens = .ok o ∧ GoodOut rooted n o := by
+  have h : ¬ ((n : Int) < 3) := by omega
+  unfold insertionGen
+  rw [if_neg h]
+  exact insertionGenDoc2_ok step P n rooted lens h3 hP0 hPI hstep
 
 theorem uniform_ok (n : Nat) (rooted : Bool) (ints : List Nat) (lens : List Rat) (h3 : 3 ≤ n)
     (hd : drawsInRange .uniform n rooted ints = true) (hl : lensNonneg lens = true) :
@@ -806,13 +816,18 @@ theorem star_ok (n : Nat) (h2 : 2 ≤ n) :
 
 theorem insertionGen_rejects (step : Nat → St → Res St) (n : Int) (rooted : Bool) (lens : List Rat) (h : n < 3) :
     (insertionGen step n rooted lens).isErr = true := by
+  simp [insertionGen, h, Res.isErr]
+
+/-- the frame before f417e91 rejected the same sizes (n = 2 unrooted through `RerootFirst`) -/
+theorem insertionGenDoc2_rejects (step : Nat → St → Res St) (n : Int) (rooted : Bool) (lens : List Rat) (h : n < 3) :
+    (insertionGenDoc2 step n rooted lens).isErr = true := by
   by_cases h2 : n < 2
-  · simp [insertionGen, h2, Res.isErr]
+  · simp [insertionGenDoc2, h2, Res.isErr]
   · have : n = 2 := by omega
     subst this
     cases rooted
-    · simp [insertionGen, iter, initSt, initTree, finishIns, rerootFirst, firstDeg3, firstDeg3L, T.leaf, Res.isErr]
-    · simp [insertionGen, Res.isErr]
+    · simp [insertionGenDoc2, iter, initSt, initTree, finishIns, rerootFirst, firstDeg3, firstDeg3L, T.leaf, Res.isErr]
+    · simp [insertionGenDoc2, Res.isErr]
 
 /-! ### counting the enumeration -/
 
